@@ -1,6 +1,7 @@
 mod drive;
 mod front;
 mod front2;
+mod rustgen;
 
 use pdlmc_core::graph::Tier;
 
@@ -34,6 +35,7 @@ fn main() {
                 "C16" => front::check_c16(tier),
                 "C10" => front2::check_c10(tier),
                 "C12" => front2::check_c12(tier),
+                p @ ("C01" | "C02" | "C03" | "C04" | "C05" | "C06" | "C15" | "C17" | "C18") => rustgen::check(p, tier),
                 _ => usage(),
             };
             std::process::exit(code);
@@ -41,6 +43,18 @@ fn main() {
         "states" => {
             let tier = tier_of(args.get(2).map(|s| s.as_str()).unwrap_or("quick"));
             front::print_states(tier);
+        }
+        "build-rust" => {
+            let tier = tier_of(args.get(2).map(|s| s.as_str()).unwrap_or("quick"));
+            let mut h = rustgen::prepare(tier);
+            if !rustgen::build(&mut h) {
+                std::process::exit(2);
+            }
+            println!("rust harness: {} states, {} modules, {} excluded, built in {:.1}s", h.states.len(), h.modules, h.excluded.len(), h.build_s);
+        }
+        "supported" => {
+            let tier = tier_of(args.get(2).map(|s| s.as_str()).unwrap_or("quick"));
+            front::print_supported(tier);
         }
         "show" => {
             let text = std::fs::read_to_string(&args[2]).expect("read");
